@@ -141,6 +141,9 @@ class HashedIterable(Generic[T]):
         """
         yield from self.values.values()
         for v in self.iterable:
+            if v.id_ in self.values:
+                # the same object again: a later pass replays the remembered values, which hold it once
+                continue
             self.values[v.id_] = v
             yield v
 
